@@ -91,11 +91,11 @@ def scratch_repo(repo=REPO):
 
 GROUP_FLAGS = {
     "default": [],
-    "leak": ["-Z", "unstable-options", "--cbmc-args", "--memory-leak-check"],
+    "leak": ["--cbmc-args", "--memory-leak-check"],
 }
 
 
-def run_kani(harnesses, jobs=16, timeout_s=1500, playback=False):
+def run_kani(harnesses, jobs=16, timeout_s=2400, playback=False, harness_timeout_s=420):
     """Run the given harnesses (one cargo kani invocation per flag group).  Returns {name: result}."""
     if not harnesses:
         return {}, []
@@ -106,7 +106,8 @@ def run_kani(harnesses, jobs=16, timeout_s=1500, playback=False):
     for h in harnesses:
         groups.setdefault(h.group, []).append(h)
     for g, hs in groups.items():
-        cmd = ["cargo", "kani", "-Z", "function-contracts", "-Z", "stubbing", "--output-format", "terse", "-j", str(min(jobs, len(hs))), "--exact"]
+        cmd = ["cargo", "kani", "-Z", "function-contracts", "-Z", "stubbing", "-Z", "unstable-options", "--harness-timeout", "%ds" % harness_timeout_s,
+               "--output-format", "terse", "-j", str(min(jobs, len(hs))), "--exact"]
         if playback:
             cmd += ["-Z", "concrete-playback", "--concrete-playback=print"]
         for h in hs:
@@ -171,7 +172,7 @@ def parse_terse(out):
             i += 1
             continue
         m = re.match(r"^Thread (\d+): ?$", l)
-        if m and i + 1 < len(lines) and "VERIFICATION RESULT" in lines[i + 1]:
+        if m and i + 1 < len(lines) and ("VERIFICATION RESULT" in lines[i + 1] or lines[i + 1].startswith("CBMC")):
             cur = cur_by_thread.get(m.group(1))
             i += 1
             continue
@@ -196,6 +197,12 @@ def parse_terse(out):
                 r["status"] = "success"
             elif l.startswith("VERIFICATION:- FAILED"):
                 r["status"] = "failed"
+                # a solver timeout / crash is not a verdict: look ahead for CBMC's own message
+                nxt = " ".join(lines[i:i + 3])
+                if "CBMC timed out" in nxt or (not r.get("checks") and not r["failed_checks"]):
+                    r["status"] = "undecided"
+                    r["reason"] = "CBMC timed out or crashed (harness timeout); no verdict"
+                    cur = None
             m = re.match(r"^Verification Time: ([\d\.]+)s", l)
             if m:
                 r["time_s"] = float(m.group(1))
